@@ -1,6 +1,7 @@
 import Model.Murmur
 import Model.Token
 import Model.Routing
+import Model.RoutingNames
 import Model.Marshal
 import Driver.C12
 import Driver.Util
@@ -106,6 +107,86 @@ def rkm (ws : List String) : Option String := do
     | _ => none
   | _ => none
 
+/-! ### op `rkn`: name / index resolution (names are BYTE strings, written in hex) -/
+
+/-- a schema row `<nameHex>:kind:position`; the partition-key rows -/
+def pSchemaRowN (w : String) : Option (Option (List UInt8 × Nat)) :=
+  match w.splitOn ":" with
+  | [n, k, p] => do
+      let n ← parseHex n
+      let p ← p.toNat?
+      some (if k == "p" then some (n, p) else none)
+  | _ => none
+
+/-- <tblHex> <m> <nameHex:kind:pos>… per table -/
+def pTablesN : Nat → List String → Option (RoutingNames.Keyspace (List UInt8) × List String)
+  | 0, ws => some ([], ws)
+  | n+1, tb :: m :: r => do
+      let tb ← parseHex tb
+      let m ← m.toNat?
+      let (roww, r1) ← takeN m r
+      let srows ← roww.mapM pSchemaRowN
+      let (more, r2) ← pTablesN n r1
+      some ((tb, srows.filterMap id) :: more, r2)
+  | _, _ => none
+
+/-- <ksHex> <style> <ntables> <table>… per keyspace (style 1|2: Cassandra 3.x / 2.x schema rows — the same key) -/
+def pKeyspacesN : Nat → List String → Option (RoutingNames.Cache (List UInt8) × List String)
+  | 0, ws => some ([], ws)
+  | n+1, ks :: _ :: nt :: r => do
+      let ks ← parseHex ks
+      let nt ← nt.toNat?
+      let (tbls, r1) ← pTablesN nt r
+      let (more, r2) ← pKeyspacesN n r1
+      some ((ks, tbls) :: more, r2)
+  | _, _ => none
+
+def showKeyN (isQuery : Bool) (ks tbl : List UInt8) : RoutingNames.Res → String
+  | .unmodelled => "unmodelled"
+  | .res .nokey => if isQuery then "nil -.-" else "nil"
+  | .res (.key none) => if isQuery then "nil " ++ toHex ks ++ "." ++ toHex tbl else "nil"
+  | .res (.key (some b)) => "ok " ++ Driver.C12.toHexC b ++ (if isQuery then " " ++ toHex ks ++ "." ++ toHex tbl else "")
+  | .res .errMarshal => "err:marshal"
+  | .res .errMeta => "err:meta"
+  | .res .crash => "crash"
+
+/-- rkn <proto> <q|b> <ksHex> <tblHex> <npk> <idx>… <nks> {<ksHex> <style> <ntables> {<tblHex> <m> <nameHex:kind:pos>…}…}…
+        <ncols> {| <nameHex> <T…>}… | <nrows> <nvals>… {| <V…>}…
+    the PREPARE answer has the global table spec (ksHex, tblHex), the bind markers <nameHex> <T> and (protocol ≥ 4) the
+    partition-key bind indexes <idx>…; the session's schema cache holds the listed keyspaces / tables. -/
+def rkn (ws : List String) : Option String := do
+  match ws with
+  | p :: kind :: ks :: tbl :: npk :: r0 =>
+    let p ← p.toNat?
+    let ks ← parseHex ks
+    let tbl ← parseHex tbl
+    let npk ← npk.toNat?
+    let (pkw, r1) ← takeN npk r0
+    let pk ← pkw.mapM (·.toNat?)
+    match r1 with
+    | nks :: r2 =>
+      let nks ← nks.toNat?
+      let (cache, r3) ← pKeyspacesN nks r2
+      match r3 with
+      | ncols :: r4 =>
+        let ncols ← ncols.toNat?
+        let (cols, r5) ← pCols ncols r4
+        let markers ← cols.mapM (fun c => (parseHex c.name).map (fun n => (⟨n, c.ty⟩ : RoutingNames.Marker (List UInt8) ValueSpec.CqlTy)))
+        match r5 with
+        | "|" :: nrows :: r6 =>
+          let nrows ← nrows.toNat?
+          let (cntw, r7) ← takeN nrows r6
+          let cnts ← cntw.mapM (·.toNat?)
+          let rows ← pRows cnts r7
+          let st : RoutingNames.Stmt (List UInt8) ValueSpec.CqlTy := ⟨markers, pk, ks, tbl⟩
+          let isQuery := kind == "q"
+          some (" ; ".intercalate (rows.map (fun vals =>
+            showKeyN isQuery ks tbl (RoutingNames.getRoutingKey (encOf p) st cache vals))))
+        | _ => none
+      | [] => none
+    | [] => none
+  | _ => none
+
 /-- a canonical decimal int64 token string -/
 def canonInt (s : String) : Option Int :=
   match s.toInt? with
@@ -146,6 +227,8 @@ def canonical (bs : List UInt8) : Bool :=
   qrk <c..> / <c..> / …   → one key per step (a Query object re-bound step by step)
   qrke <explicit> / <c..> / … → the explicit key at every step
   rkm …                   → routing keys through routingKeyInfo (see `rkm`)
+  rkn …                   → the same with arbitrary (byte-string) column / keyspace / table names and a schema cache of
+                            several keyspaces and tables (see `rkn`); rknx: outcomes the theorems do not cover
   lessm <a> <b>           → Less of two VALID (canonical decimal int64) Murmur3 token strings; lessmx: any strings
   hlessm <k1> <k2>        → Less of the Murmur3 tokens of two keys; hlessr <d1> <k1> <d2> <k2>: Random
   ringsort m|r|o …        → the token ring order -/
@@ -185,6 +268,8 @@ def step (_ : Unit) (ws : List String) : Unit × String :=
       | _, _ => "bad-op"
   | "rkm" :: r => (rkm r).getD "bad-op"
   | "rkmx" :: r => (rkm r).getD "bad-op"
+  | "rkn" :: r => (rkn r).getD "bad-op"
+  | "rknx" :: r => (rkn r).getD "bad-op"
   | "ringsort" :: k :: r => ringsort k r
   | ["lessmx", a, b] => match parseHex a, parseHex b with
       | some x, some y => toString (decide (Token.parseInt64 (x.map (fun b => Char.ofNat b.toNat)) < Token.parseInt64 (y.map (fun b => Char.ofNat b.toNat))))
